@@ -9,7 +9,7 @@ CHECKS = {
    note="Trusted: TLC/SANY/CommunityModules, Go toolchain, SHA-512 facts, the driver's RFC 9381 transcription on edwards25519 primitives for point facts. Uniqueness of the output for adversarial proofs is a cryptographic property; it is covered only through the model's algebra (output = 8*Gamma) and the crafted/torsion scenarios.",
    tech="explicit TLA+ spec over an abstract group + TLC model + real-size trace validation with dictated hash inputs, BigNat certificates and class-determined verdicts"),
  "C01": dict(cat="model_checking", ref="DESIGN.md section 5 C01",
-   text="TLA+ module Ed25519 models verification over the abstract cyclic group Z_{8q}; TLC checks on every (A string, R string, S, k, length) that the staged verifier of the code equals the ZIP-215 definition, is invariant under all torsion shifts and encoding classes, rejects S >= q and accepts everything the cofactorless verifier accepts. TLC generates the scenario table (checked to have class-determined verdicts); the driver concretises it on the real curve with known discrete logarithms, and TLC recomputes every verdict in the exponent (S < L, S = r + k*a mod L with certified reductions) - independently of the curve arithmetic under test - incl. every S+jL fitting 256 bits, S at the 2^252/L/2^253 boundaries (via small-order keys), single-bit flips and random bytes, and checks crypto/ed25519-accepted => accepted.",
+   text="TLA+ module Ed25519 models verification over the abstract cyclic group Z_{8q}; TLC checks on every (A string, R string, S, k, length) that the staged verifier of the code equals the ZIP-215 definition, is invariant under all torsion shifts and encoding classes, rejects S >= q and accepts everything the cofactorless verifier accepts. TLC generates the scenario table (checked to have class-determined verdicts); the driver concretises it on the real curve with known discrete logarithms, and TLC recomputes every verdict in the exponent (S < L, S = r + k*a mod L with certified reductions) - independently of the curve arithmetic under test - incl. every S+jL fitting 256 bits, S at the 2^252/L/2^253 boundaries (via small-order keys), single-bit flips and random bytes, and checks crypto/ed25519-accepted => accepted. Sequential calls go through buffers overwritten in place and a concurrent phase (8 goroutines, long messages) is judged by the same specification.",
    note="Trusted: TLC/SANY/CommunityModules, Go toolchain, SHA-512 as fact provider, filippo.io/edwards25519 for constructing test points and classifying undecodable strings. Bit-flipped R/A and random inputs are expected to be rejected on cryptographic grounds. Real-size inputs are class-complete but sampled.",
    tech="explicit TLA+ spec over an abstract group + exhaustive TLC model + TLC-generated scenario table concretised + exponent-level trace validation with BigNat certificates"),
  "C07": dict(cat="exploration", ref="DESIGN.md section 5 C07",
@@ -29,7 +29,7 @@ CHECKS = {
    note="Trusted: as C17. The toy instantiation goes through an overlay-only export shim in the internal btccurve package (not part of /repo).",
    tech="explicit TLA+ spec + TLC toy model + complete (k,d) tables replayed through the real Shift code + certificate-checked real-size traces"),
  "C13": dict(cat="model_checking", ref="DESIGN.md section 5 C13",
-   text="TLA+ module PowMine models Mine of both PoW versions with one action per stretch of code between two hook points (main, watcher, NW workers, environment cancelling at any instant). TLC checks safety for NW<=3 (thorough 4) in modes always/never/either (a finder's send never blocks, nonce only if found, ErrCancelled only if cancelled, all workers joined at return, no stuck state) and liveness under weak fairness (cancelled ~> returned, found ~> returned, returned ~> no goroutine left); an undersized channel is shown to violate the model (vacuity control). TLC simulation behaviours are replayed as schedules on the real Mine through blocking hooks (build tag verif), free-running executions with 1..64 workers and cancellation before / during / at a find are recorded, and every execution is validated against PowMine by TLC, which infers the interleaving (one action of look-ahead per process) and checks the returned value, the goroutine count and the score of the returned nonce. The free-running binary runs under the race detector.",
+   text="TLA+ module PowMine models Mine of both PoW versions with one action per stretch of code between two hook points (main, watcher, NW workers, environment cancelling at any instant). TLC checks safety for NW<=3 (thorough 4) in modes always/never/either (a finder's send never blocks, nonce only if found, ErrCancelled only if cancelled, all workers joined at return, no stuck state) and liveness under weak fairness (cancelled ~> returned, found ~> returned, returned ~> no goroutine left); an undersized channel is shown to violate the model (vacuity control). TLC simulation behaviours are replayed as schedules on the real Mine through blocking hooks (build tag verif), free-running executions with 1..64 workers and cancellation before / during / at a find are recorded, and every execution is validated against PowMine by TLC, which infers the interleaving (one action of look-ahead per process) and checks the returned value, the goroutine count and the score of the returned nonce. Two concurrent Mine calls on one Worker (one cancelled) are checked at the outcome level. The free-running binary runs under the race detector.",
    note="Trusted: TLC/SANY/CommunityModules, Go toolchain and race detector (dynamic), sequentially consistent atomics and channel semantics as modelled, mutex-ordered hook events. The model is bounded (NW<=4); real executions are sampled schedules. A hang is observed positively (Mine not returned 10 s after it must) and confirmed by re-running.",
    tech="explicit TLA+ spec + TLC safety/liveness model checking + TLC behaviours replayed as schedules through gate hooks + trace validation with inferred interleavings + race detector"),
  "C11": dict(cat="model_checking", ref="DESIGN.md section 5 C11",
@@ -41,13 +41,13 @@ CHECKS = {
    note="Trusted: TLC/SANY/CommunityModules, Go toolchain, BLAKE2b digest fact, iota.go single-lane Curl for the hashes of earlier nonces (one audited by TLC per event). Mine targets need at most 6 (thorough 8) zeros.",
    tech="explicit TLA+ spec with BigNat + scaled exhaustive TLC model of the lane test + trace validation with certificates"),
  "C06": dict(cat="model_checking", ref="DESIGN.md section 5 C06",
-   text="TLA+ CurlMC: a bit-sliced mini sponge shaped like curl.go (rate reset for all lanes, `in` only clears bits, transform placement in Squeeze, Reset, Clone, rejected calls) is model-checked to refine independent per-lane sponges of module CurlP81 for all histories up to a depth over two instances. Real Curl objects are driven through seeded histories (pooled block keys so equal histories meet at different lane positions, batch sizes 1..64, one-call vs split absorbs of the same histories, split squeezes, diverging clones, resets, rejected calls); the stateful trace specification keeps term -> output and rejects any term observed with two outputs, wrong error answers or touched state, and evaluates the Curl-P-81 sponge itself (729 trits, 81 rounds, in TLC) for audited lanes.",
+   text="TLA+ CurlMC: a bit-sliced mini sponge shaped like curl.go (rate reset for all lanes, `in` only clears bits, transform placement in Squeeze, Reset, Clone, rejected calls) is model-checked to refine independent per-lane sponges of module CurlP81 for all histories up to a depth over two instances. TLC -simulate behaviours of that model are replayed as histories on real Curl objects, and real Curl objects are driven through seeded histories (pooled block keys so equal histories meet at different lane positions, batch sizes 1..64, one-call vs split absorbs of the same histories, split squeezes, diverging clones, resets, rejected calls); the stateful trace specification keeps term -> output and rejects any term observed with two outputs, wrong error answers or touched state, and evaluates the Curl-P-81 sponge itself (729 trits, 81 rounds, in TLC) for audited lanes.",
    note="Trusted: TLC/SANY/CommunityModules, Go toolchain, collision freedom of the SHA-256 output fingerprints. The scaled model (hash length 1, 2-3 lanes, 2 rounds) carries the structural argument; real-size behaviour is bound by sampled histories and audited lanes.",
    tech="explicit TLA+ spec + TLC refinement model (bit-sliced vs per-lane) + stateful trace validation with TLC-evaluated Curl-P-81 anchors"),
  "C20": dict(cat="model_checking", ref="DESIGN.md section 5 C20",
-   text="TLA+ CurlP81 defines the round function at trit and at bit-pair level; TLC checks their agreement on all cell pairs and the index walk. The real transform (assembly build and purego build) and transformGeneric are run on seeded bit-sliced states incl. non-trit cells, the reset state and degenerate planes, with every buffer placed against PROT_NONE guard pages; whole-state equality asm==portable is required and for audited lanes TLC evaluates 81 rounds of the definition on the 729 cells and compares.",
-   note="Trusted: TLC/SANY/CommunityModules, Go toolchain and assembler, lane-locality of bitwise instructions for non-audited lanes. States are sampled (2^(2*729*64) cannot be enumerated); the reduction to 4 values per cell pair is checked in the model.",
-   tech="explicit TLA+ spec evaluated by TLC at real size on audited lanes + guard-page differential traces under both builds"),
+   text="TLA+ CurlP81 defines the round function at trit and at bit-pair level; TLC checks their agreement on all cell pairs and the index walk. The real transform (assembly build and purego build) and transformGeneric are run on seeded bit-sliced states incl. non-trit cells, the reset state and degenerate planes, with every buffer placed against PROT_NONE guard pages; whole-state equality asm==portable is required and for audited lanes TLC evaluates 81 rounds of the definition on the 729 cells and compares. Program level: the checked-in transform_amd64.s is translated (tools/asm2tla.py) into a TLA+ instruction list and executed by the AsmMachine specification: an address run of the whole routine (650 113 instructions: every memory operand aligned and inside one of the four buffers, no data in addresses or flags, pointer roles and store counts per round, state at RET) and a symbolic run of one round body (every store equals the round function of its index by truth table over the two source cells; every index written once).",
+   note="Trusted: TLC/SANY/CommunityModules, Go toolchain and assembler, the 100-line translator and the AsmMachine instruction semantics (an unknown instruction form skips that leg, recorded in the evidence), lane-locality of bitwise instructions for non-audited lanes. Bit-sliced states are sampled (2^(2*729*64) cannot be enumerated); the reduction to 4 values per cell pair is checked in the model and by the symbolic round.",
+   tech="explicit TLA+ spec: AsmMachine executes the checked-in assembly (address run + symbolic round) in TLC; CurlP81 evaluated by TLC at real size on audited lanes; guard-page differential traces under both builds"),
  "C03": dict(cat="model_checking", ref="DESIGN.md section 5 C03",
    text="TLA+ module Bip39: a parameterised bit-level codec; TLC checks it exhaustively at a scaled size (all 1- and 2-byte entropies, all index sequences: round trip incl. leading/trailing zero bytes, accept <=> re-encodes to itself). At real size TLC-chosen boundary entropies are replayed and stateful traces (the SetWordList event logs the word dump = specification state; language switches interleaved) are validated by TLC, which recomputes sentence, acceptance, entropy and error kind from SHA-256 facts. Embedded word lists are pinned by digest and checked structurally by TLC.",
    note="Trusted: TLC/SANY/CommunityModules, Go toolchain, crypto/sha256 as fact provider (TLC rejects a fact that is not about the entropy the spec derives), pinned digests of the word lists (official files unavailable offline). Real-size entropies are sampled/boundary-generated, not exhaustive.",
